@@ -16,6 +16,10 @@ func init() {
 	// plain view (times and line texts) does not carry them, so the bytes differ from vtt_enc of the plain cues.  The
 	// cues themselves (times, texts) are covered for this pair by suiteConvert's oracle.
 	plainSkipPairs["stl->vtt"] = "STL reader sets WebVTTAlign/WebVTTLine, written by the WebVTT writer as cue settings"
+	// ReadFromSTL fills Metadata.Language from the GSI language code (the writer's default "0F" = French), which
+	// WriteToTTML emits as xml:lang; the plain view carries no metadata, so ttml_enc of the plain cues has no xml:lang.
+	// The cues themselves are covered for this pair by suiteConvert's oracle.
+	plainSkipPairs["stl->ttml"] = "STL reader sets Metadata.Language from the GSI block, written by the TTML writer as xml:lang"
 	plainCodecs = append(plainCodecs, plainCodec{3, "stl", 4e7,
 		func(b []byte) (*astisub.Subtitles, error) {
 			return astisub.ReadFromSTL(bytes.NewReader(b), astisub.STLOptions{})
